@@ -248,6 +248,7 @@ namespace
         const std::vector<Boom>* src;
         bool                     retry = false; // catch a failure in the constructor body and retry
         bool*                    retried = nullptr;
+        void*                    other   = nullptr; // forms 5 / 6: a joint_array<Boom> to copy / move from
     };
 
     struct JBoom : fm::joint_type<JBoom>
@@ -299,6 +300,12 @@ namespace
             case 3:
                 ::new (st) fm::joint_array<Boom>(a.src->data(), a.src->data() + a.n, *this);
                 break;
+            case 5:
+                ::new (st) fm::joint_array<Boom>(*static_cast<const fm::joint_array<Boom>*>(a.other), *this);
+                break;
+            case 6:
+                ::new (st) fm::joint_array<Boom>(std::move(*static_cast<fm::joint_array<Boom>*>(a.other)), *this);
+                break;
             default:
                 ::new (st) fm::joint_array<Boom>(InputIt{a.src->data()}, InputIt{a.src->data() + a.n}, *this);
             }
@@ -320,7 +327,10 @@ namespace
                     // (exact-fit) object must find the joint memory unused again
                     L->fail_at = 0;
                     *a.retried = true;
-                    build(a);
+                    Args again = a;
+                    if (again.form >= 5)
+                        again.form = 3; // second attempt from the plain range (the other array may be moved from)
+                    build(again);
                 }
             }
         }
@@ -1531,7 +1541,8 @@ namespace
         {
             if (n == 0)
                 n = 1;
-            unsigned form = o.c % 2 ? 3 : 0; // size / range
+            static const unsigned forms[] = {0, 3, 5, 6}; // size / range / copy / move of another array
+            unsigned form = forms[o.c % 4];
             ledger.fail_at = 0;
             std::vector<Boom> src;
             src.reserve(20);
@@ -1540,10 +1551,19 @@ namespace
             unsigned k = 1 + o.b % unsigned(n);
             size_t live0 = ledger.alive.size(), out0 = Slab::get().outstanding_of(31);
             bool   retried = false;
+            // forms 5 / 6: a second joint object (built without faults) whose array is copied / moved
+            std::unique_ptr<fm::joint_ptr<JBoom, OLeaf>> other;
+            if (form >= 5)
+            {
+                Args oa{3, n, &src, false, nullptr};
+                other.reset(new fm::joint_ptr<JBoom, OLeaf>(leaf, fm::joint_size(n * sizeof(Boom)), oa));
+            }
             ledger.fail_at = ledger.creations + k;
             try
             {
                 Args a{form, n, &src, true, &retried};
+                if (other)
+                    a.other = &(*other)->arr();
                 fm::joint_ptr<JBoom, OLeaf> p(leaf, fm::joint_size(n * sizeof(Boom)), a);
                 if (p->arr().size() != n)
                     fail("retry-size", "array built on retry has the wrong size");
@@ -1558,6 +1578,7 @@ namespace
                 fail("exception-changed", "unexpected exception from the retry form");
             }
             ledger.fail_at = 0;
+            other.reset();
             if (!fail.failed && !retried)
                 fail("fault-swallowed", "the injected failure never reached the constructor body");
             if (!fail.failed && (ledger.alive.size() != live0 || ledger.error))
